@@ -2,33 +2,66 @@ import RCE.Proofs.SearchMate
 /-! # C12 — with caching on, mate scores are sound
 
 `Won G p` / `Lost G p`: the side to move in `p` has a forced mate / is forcibly mated (inductive, any
-length).  For **every** cache content satisfying the invariant `MateSound`, every limit, every
-interruption point: the search preserves the invariant, and a winning mate score reported for the
+length).  Intended: for **every** cache content satisfying the invariant `MateSound`, every limit, every
+interruption point, the search preserves the invariant, and a winning mate score reported for the
 root means the chosen move really forces mate.  (`KeyMate` assumed: positions with the same 64-bit key agree on
-forced mates.)  The completeness clauses of the property (a mate in ≤ 2 *is found* after a completed
-3-ply iteration, also with a pre-loaded cache) are not theorems — stored mate distances are relative
-to the root that stored them, so that statement is path-dependent; it is decided by the differential
-check against a mate solver over the rules spec, see DESIGN.md. -/
+forced mates.)
+
+**Finding.**  Both clauses are FALSE for the search as written (`tt_mate_sound_statement`,
+`mate_score_sound_statement` below; counterexamples `RCE.Proofs.SearchMate.Counter.G1` / `G2`, evaluated in
+`RCE/Proofs/SearchMate.lean`, with `tt_mate_sound_refuted` / `mate_score_sound_refuted` reducing the refutation to the
+displayed `#eval` results).  The root window's β is `MAXS = 32767`, which is also the score of a mate in one
+(`satNeg (MINS + 1)`).  When the root's α reaches `MAXS` the remaining root moves are searched with the null window
+`(−32768, −32767)` and every window below it is empty (`(32767, 32767)`, `(−32767, −32767)`, …).  In an empty window a
+fail-hard return is not a bound: quiescence stands pat with `β = −32767`, the parent reads `32767 ≥ β`, cuts, and
+stores `⟨32767, lower⟩` — "forced mate" — for an arbitrary position (write site 2); a later iteration (or search)
+reads it in an ordinary window and reports a mate that is not there.
+
+What is proved (`_partial`): both clauses hold when (a) no legal root move mates at once (`NoMateInOne`) and (b) the
+initial cache holds no score `≤ −32767` or `≥ 32767` (`StrictScores`; true of the empty cache, and preserved by the
+search under (a)).  The two counterexamples show that neither (a) nor (b) can be dropped.
+
+The completeness clauses of the property (a mate in ≤ 2 *is found* after a completed 3-ply iteration, also with a
+pre-loaded cache) are not theorems — stored mate distances are relative to the root that stored them, so that
+statement is path-dependent; it is decided by the differential check against a mate solver over the rules spec, see
+DESIGN.md. -/
 namespace RCE.Props.C12
 open RCE.Search RCE.Proofs.SearchDefs RCE.Proofs.SearchMate
 
 variable {P M : Type} [DecidableEq M]
 
-/-- the search keeps the cache mate-sound, whatever happens (limits, stops, draws by repetition on the path) -/
-theorem tt_mate_sound (env : Env) (G : Game P M) (p : P) (maxDepth : Option Nat) (tt0 : Table M)
-    (hk : KeyMate G) (he : EvalBoundedFrom G p) (hs : MateSound G tt0) :
-    MateSound G (search env G p maxDepth tt0).st.tt :=
-  tt_mate_sound' env G p maxDepth tt0 hk he hs
+/-- as specified: the search keeps the cache mate-sound, whatever happens — FALSE, see above -/
+def tt_mate_sound_statement : Prop := RCE.Proofs.SearchMate.tt_mate_sound_statement
 
-/-- a winning mate score for the root is backed by a forced mate after the chosen move -/
-theorem mate_score_sound (env : Env) (G : Game P M) (p : P) (maxDepth : Option Nat) (tt0 : Table M)
-    (hk : KeyMate G) (he : EvalBoundedFrom G p) (hs : MateSound G tt0) (s : Int) (m : M)
+/-- as specified: a winning mate score for the root is backed by a forced mate after the chosen move — FALSE, see above -/
+def mate_score_sound_statement : Prop := RCE.Proofs.SearchMate.mate_score_sound_statement
+
+/-- the search keeps the cache mate-sound, whatever happens (limits, stops, draws by repetition on the path) —
+    if no root move mates at once and the initial cache has no score `≤ −32767` / `≥ 32767` -/
+theorem tt_mate_sound_partial (env : Env) (G : Game P M) (p : P) (maxDepth : Option Nat) (tt0 : Table M)
+    (hk : KeyMate G) (he : EvalBoundedFrom G p) (hs : MateSound G tt0)
+    (hno : NoMateInOne G p) (hst : StrictScores tt0) :
+    MateSound G (search env G p maxDepth tt0).st.tt :=
+  RCE.Proofs.SearchMate.tt_mate_sound_partial env G p maxDepth tt0 hk he hs hno hst
+
+/-- a winning mate score for the root is backed by a forced mate after the chosen move — same provisos -/
+theorem mate_score_sound_partial (env : Env) (G : Game P M) (p : P) (maxDepth : Option Nat) (tt0 : Table M)
+    (hk : KeyMate G) (he : EvalBoundedFrom G p) (hs : MateSound G tt0)
+    (hno : NoMateInOne G p) (hst : StrictScores tt0) (s : Int) (m : M)
     (hb : (search env G p maxDepth tt0).st.bestScore = some s) (hw : s ≥ MAXS - 255)
     (hm : (search env G p maxDepth tt0).st.bestMove = some m) :
     Lost G (G.play p m) :=
-  mate_score_sound' env G p maxDepth tt0 hk he hs s m hb hw hm
+  RCE.Proofs.SearchMate.mate_score_sound_partial env G p maxDepth tt0 hk he hs hno hst s m hb hw hm
+
+/-- the full statements are refuted by the two runs displayed in `RCE/Proofs/SearchMate.lean` -/
+theorem statements_refuted
+    (hrun1 : ∃ e, Counter.r1.st.tt[Counter.G1.key 3]? = some e ∧ e.bound = .lower ∧ e.score = 32767)
+    (hrun2 : Counter.r2.st.bestScore = some 32767 ∧ Counter.r2.st.bestMove = some 2) :
+    ¬ tt_mate_sound_statement ∧ ¬ mate_score_sound_statement :=
+  ⟨Counter.tt_mate_sound_refuted hrun1, Counter.mate_score_sound_refuted hrun2⟩
 
 end RCE.Props.C12
 
-#print axioms RCE.Props.C12.tt_mate_sound
-#print axioms RCE.Props.C12.mate_score_sound
+#print axioms RCE.Props.C12.tt_mate_sound_partial
+#print axioms RCE.Props.C12.mate_score_sound_partial
+#print axioms RCE.Props.C12.statements_refuted
